@@ -1,6 +1,7 @@
 """Which machinery decides which property."""
 import ms_checks
 import sieve_checks
+import factory_checks
 
 MS_COQ = ["ms/Driver.vo"]
 SV_COQ = ["sieve/Printer.vo", "gen/GenTables.vo"]
@@ -50,4 +51,16 @@ CHECKS = {
                "placeholder"),
     "C20": _sv(sieve_checks.check_C20, "Coq proof generic in the tables (argcheck_correct for every well-formed definition) + correspondence with definitions registered at run time",
                "placeholder"),
+    "C12": {"level": "proof", "coq": ["factory/Ops.vo"], "drivers": ["factory"], "run": factory_checks.check_C12,
+            "technique": "Coq proof (refinement of the FiltersSet operations to an ordered uniquely-named list, by induction over operation sequences) + model/implementation correspondence",
+            "level_text": "placeholder", "level_note": "Kernel + extraction + correspondence check; filter contents abstracted to plain command / if-false wrapper."},
+    "C06": {"level": "proof", "coq": ["factory/Text.vo", "sieve/Printer.vo", "gen/GenTables.vo"], "drivers": ["factory", "sieve"], "run": factory_checks.check_C06,
+            "technique": "Coq proof (every quoted value lexes as exactly one string token; quote_list token structure) + correspondence of the quoting model + strict validation of generated scripts",
+            "level_text": "placeholder", "level_note": "Kernel + extraction + correspondence; __create_filter's per-kind assembly is exercised on the implementation (strict validator, require coverage, skeleton independence), not modelled."},
+    "C11": {"level": "proof", "coq": ["factory/Text.vo"], "drivers": ["factory"], "run": factory_checks.check_C11,
+            "technique": "Coq proof (marker comments are recovered exactly: stored_comment/recover/remove_all) + correspondence of the comment model + save/load round trip on the implementation",
+            "level_text": "placeholder", "level_note": "Kernel + extraction + correspondence; tree equality of reloaded filters rests on C04 and is exercised on the implementation."},
+    "C19": {"level": "proof", "coq": ["factory/Text.vo"], "drivers": ["factory"], "run": factory_checks.check_C19,
+            "technique": "Coq proof (to_list/strip round trip on comma- and quote-free values, refuted with witnesses outside) + correspondence of to_list + read-back on the implementation",
+            "level_text": "placeholder", "level_note": "Kernel + extraction + correspondence; the per-test args_as_tuple code is exercised on the implementation, not modelled."},
 }
